@@ -14,7 +14,8 @@
            the only skip in the block header is the one by the advertised byte size (no computed skip), and nothing
            else in the deserializer skips bytes
   NEWTYPE  serde's newtype struct is transparent on both sides (serializer forwards the inner value; deserializer answers
-           deserialize_newtype_struct with visit_newtype_struct(self))                        (found F17; shared C01, C20)
+           deserialize_newtype_struct with visit_newtype_struct(self)), and so does every other deserializer that hands
+           values to user types (map keys, the enum-hinting wrapper: F38)                 (found F17; shared C01, C20)
   SEQEND   every visit_seq over an array access lends the access and reads the array to its end marker afterwards
            (fixed-length visitors stop early)                                                  (found F19)
   SHORTREAD no plain io::Read::read judged by its count outside forwarding Read implementations (shared with C11)
